@@ -17,8 +17,8 @@
    Sync when a pushed diff is rejected), 4b9897e (RemoteUpdateMutations does
    the same from a goroutine instead of inside the blocking read loop),
    ca3c269 (pushClient skips NewServer's placeholder dataLatest), 8ad26fe
-   (pushUpdateLatest also sends diffs without indexes) and e5ad5bb
-   (DataQueue flushes dataQueue). One-line notes "old code:" say how the
+   (pushUpdateLatest also sends diffs without indexes), e5ad5bb (DataQueue
+   flushes dataQueue) and aabeecb (RemoteHello empties dataQueue). One-line notes "old code:" say how the
    unrepaired behaviour was modelled.
 
    Quirks kept on purpose (each is visible to the correspondence check):
@@ -371,7 +371,9 @@ Definition do_hello (p : pcfg) (s : st) : st :=
                   d_q := s_q x; d_m := s_m x; d_check := d_check (sv_last v) |} in
   set_pend
     (set_wire
-       (set_cl (set_sv s (mk_server last' (sv_latest v) (sv_queue v)))
+       (* aabeecb: the session starts with an empty dataQueue.
+          old code: mk_server last' (sv_latest v) (sv_queue v) *)
+       (set_cl (set_sv s (mk_server last' (sv_latest v) []))
                (mk_client (hello_time c x) (s_q x) (if p_hello_m p then s_m x else 0)
                           false false (cl_errs (st_cl s))))
        [])
